@@ -320,7 +320,19 @@ Definition b_empty : bstate := {| ax := empty_table; tmapB := []; cmapB := []; t
    repeat; with the repair of F8 ([fx] = true) the live object reports to the wrapper that handed it out: the table
    recomputes both maps, the row wrapper recomputes its _rmap and the table's width is synchronised.  Without it
    ([fx] = false, the pinned code) a throw-away wrapper of the XML parent is updated and the caller's maps stay. *)
-Inductive lop := LRowRep (y : Z) (rep : nat) | LCellRep (x y : Z) (rep : nat).     (* rep 0 = None *)
+Inductive lop :=
+| LRowRep (y : Z) (rep : nat) | LCellRep (x y : Z) (rep : nat)     (* rep 0 = None *)
+| LRowOp (y : Z) (o : rop).    (* get_row(y, clone=False).set_cell / insert_cell / delete_cell / append_cell: the Row API on the
+                                  cached wrapper: the XML row (every repetition of its run) is edited IN PLACE, the wrapper's own _rmap is
+                                  rewritten, its cell cache reset when a vault function ran; the table's maps and width are not touched *)
+(* the Row-level call on a row object that carries its own map (only the four single-cell calls) *)
+Definition wrow_op (o : rop) (cs : rruns) (m : list Z) : option (rruns * list Z * bool) :=
+  match o with
+  | RSet x c => wrow_set_cell (norm_coord x (hmap m)) c cs m
+  | RIns x c => wrow_insert_cell (norm_coord x (hmap m)) c cs m
+  | RDel x => wrow_delete_cell (norm_coord x (hmap m)) cs m
+  | RApp c => Some (cs ++ [c], app_map m (fst c), false)
+  | _ => None end.
 Definition b_live (fx : bool) (b : bstate) (l : lop) : option bstate :=
   match l with
   | LRowRep y rep =>
@@ -356,6 +368,24 @@ Definition b_live (fx : bool) (b : bstate) (l : lop) : option bstate :=
                     Some (if fx then b_update_width (hmap (w_rmap w'')) b2 else b2)
                   | _, _ => None end
            end
+  | LRowOp y o =>
+      let y := bny y b in
+      if bheight b <=? y then Some b           (* get_row creates a detached Row *)
+      else match get_wrap y b with
+           | None => None
+           | Some (i, w, b1) =>
+             match wrap_row w (ax b1) with
+             | None => None
+             | Some (rep, (st, cs)) =>
+               match wrow_op o cs (w_rmap w) with
+               | None => None
+               | Some (cs', m', reset) =>
+                 let w' := {| w_pos := w_pos w; w_rmap := m'; w_cells := if reset then [] else w_cells w |} in
+                 Some {| ax := {| cols := cols (ax b1); rows := set_nth (Z.to_nat (w_pos w)) (rep, (st, cs')) (rows (ax b1)) |};
+                         tmapB := tmapB b1; cmapB := cmapB b1; tcache := upsertn i w' (tcache b1); ccache := ccache b1 |}
+               end
+             end
+           end
   end.
 (* the same on the XML alone (every map recomputed from the XML): what a fresh parse does *)
 Definition cell_pos_at (x : Z) (cs : rruns) : option (nat * (nat * cell)) :=
@@ -386,6 +416,21 @@ Definition a_live (t : tstate) (l : lop) : option tstate :=
                                     let cs' := set_nth p (Nat.max 1 rep, c) cs in
                                     Some (update_width (rwidth cs') {| cols := cols t; rows := set_nth i (rrep, (st, cs')) (rows t) |})
                                 | None => None end
+                       | None => None end
+           end
+  | LRowOp y o =>
+      let y := ny y t in
+      if theight t <=? y then Some t
+      else match find_idx (cmap (rows t)) y with
+           | None => None
+           | Some i => match nth_error (rows t) i with
+                       | Some (rep, (st, cs)) =>
+                           match o with
+                           | RSet _ _ | RIns _ _ | RDel _ | RApp _ =>
+                               match rstep cs o with
+                               | Some cs' => Some {| cols := cols t; rows := set_nth i (rep, (st, cs')) (rows t) |}
+                               | None => None end
+                           | _ => None end
                        | None => None end
            end
   end.
